@@ -129,11 +129,22 @@ class Campaign:
         ctx.count("applied")
         reqs = [{"op": "listing_check", "before": o["before"], "after": o["after"], "edits": o["edits"],
                  "nop": emodify.nop_bytes(case)}]
+        # the offset bookkeeping of _apply_modifications, block by block
+        self.seq = []
+        for blk in sorted({e["block"] for e in o["edits"]}):
+            mine = [e for e in o["edits"] if e["block"] == blk]
+            base = next((e["_base"] for e in mine if e["_base"] is not None), 0)
+            bb = next(b for b in o["before"]["blocks"] if b["id"] == blk)
+            iv = next(i for i in o["before"]["intervals"] if i["id"] == bb["bi"])
+            reqs.append({"op": "seq_positions", "edits": mine, "block": blk, "base": base,
+                         "bytes": iv["bytes"][bb["off"]:bb["off"] + bb["size"]]})
+            self.seq.append(mine)
+        nseq = len(self.seq)
         recs = []
         if self.with_corr:
             recs = [r for r in o["rec"].records if "after" in r and not r.get("raised")]
             reqs += [{"op": "ir_op", "ir": r["before"], "do": r["do"]} for r in recs]
-        self.pending.append((case, o, recs, reqs))
+        self.pending.append((case, o, recs, reqs, self.seq))
         if sum(len(p[3]) for p in self.pending) >= 400:
             self.flush()
 
@@ -151,10 +162,23 @@ class Campaign:
             self.pending = []
             return
         k = 0
-        for case, o, recs, reqs in self.pending:
+        for case, o, recs, reqs, seq in self.pending:
             a = ans[k]
-            mine = ans[k + 1:k + len(reqs)]
+            seqans = ans[k + 1:k + 1 + len(seq)]
+            mine = ans[k + 1 + len(seq):k + len(reqs)]
             k += len(reqs)
+            for edits, sa in zip(seq, seqans):
+                ctx.count("corr:offsets")
+                if "positions" not in sa:
+                    ctx.mismatch("offset bookkeeping model failed: %s" % (sa,), case)
+                    continue
+                by_order = {e["order"]: e["_pos"] for e in edits}
+                got = [by_order[o_] for o_ in sa["order"]]
+                if got != sa["positions"]:
+                    ctx.mismatch("_apply_modifications edits at interval positions %s, the model (offset + total_insert_len) at %s"
+                                 % (got, sa["positions"]), case)
+                if sa["seq"] != sa["spec"]:
+                    ctx.mismatch("sequential application differs from the plain splice on this request list", case)
             if "err" in a or self.facet not in a:
                 ctx.mismatch("the listing specification could not be evaluated: %s" % (a.get("err"),), case)
                 continue
